@@ -9,7 +9,7 @@ H = 'harness/c11_codec.c'
 def jobs(tier):
     J = []
     for k in ('int', 'uint', 'float', 'double', 'ldouble'):
-        j = Job('codec.' + k, H, 'h_' + k, defines={'NDEBUG': None}, unwind=12, no_standard_checks=True, object_bits=10,
+        j = Job('codec.' + k, H, 'h_' + k, defines={"NDEBUG": None}, unwind=18, no_standard_checks=True, object_bits=10,
                 scope=['vp_w', 'vp_r', 'vp_on_error', 'setup'], timeout=600)
         j.count_funcs = {'write_int', 'write_uint', 'write_float', 'write_double', 'write_ldouble', 'read_token', 'read_int',
                          'read_uint', 'get_uint', 'get_int', 'put_uint', 'put_int', 'put_byte', 'get_byte', 'int_length',
